@@ -4,8 +4,39 @@
     transliteration of the C parser computes on the declared bytes.  Only statements closed by
     [exact]; proofs live in ParseSound*.v.  (Ledger: C01/C07; parse end: C10.) *)
 From CJ Require Import Base Dbl Tree LibcNum ParseDefs ParseSpec Grammar ParseComplete
-  ParseSoundUtf8 ParseSoundGrammar ParseSound ParseSoundReject ParseSoundCtx ParseSoundIncl ParseSoundExamples.
+  ParseSoundUtf8 ParseSoundGrammar ParseSound ParseSoundReject ParseSoundCtx ParseSoundIncl ParseSoundEntry
+  ParseSoundExamples.
 Local Open Scope Z_scope.
+
+(** * 0. At the entry point (buffer-level transliteration of cJSON_ParseWithLengthOpts, no
+       allocation failure), by the refinement theorem of ParseRefine.v *)
+
+(** a returned tree derives, in the lenient grammar, from the declared bytes before the published
+    parse end; with required termination a zero byte is at the parse end *)
+Theorem C03_entry_sound : forall strtod content len rnt r t,
+  strtod_ok strtod -> strtod_stable strtod -> (len <= length content)%nat ->
+  cJSON_ParseWithLengthOpts strtod never_fails content len rnt = Ok r -> pr_tree r = Some t ->
+  exists pre rest v,
+    firstn len content = pre ++ rest /\ LEN_text strtod pre v /\ t = tree_of strtod v /\
+    pr_end r = Some (length pre) /\ (rnt = true -> exists r', rest = 0 :: r').
+Proof. exact parse_with_length_sound. Qed.
+Print Assumptions C03_entry_sound.
+
+(** declared bytes no prefix of which is a text of the lenient dialect: NULL *)
+Theorem C03_entry_rejects : forall strtod content len rnt,
+  strtod_ok strtod -> strtod_stable strtod -> (len <= length content)%nat ->
+  (forall pre rest v, firstn len content = pre ++ rest -> ~ LEN_text strtod pre v) ->
+  exists r, cJSON_ParseWithLengthOpts strtod never_fails content len rnt = Ok r /\ pr_tree r = None.
+Proof. exact parse_with_length_rejects. Qed.
+Print Assumptions C03_entry_rejects.
+
+(** every rejection lemma below (stated of the specification [text_l]) is a NULL of the parser *)
+Theorem C03_entry_rejects_spec : forall strtod content len rnt,
+  strtod_ok strtod -> (len <= length content)%nat ->
+  text_l strtod (firstn len content) rnt = None ->
+  exists r, cJSON_ParseWithLengthOpts strtod never_fails content len rnt = Ok r /\ pr_tree r = None.
+Proof. exact parse_with_length_rejects_spec. Qed.
+Print Assumptions C03_entry_rejects_spec.
 
 (** * 1. Soundness: whatever is accepted is a text of the lenient dialect *)
 
